@@ -66,6 +66,7 @@ type FuncSpec struct {
 	Inline    bool
 	Pos       string
 	LoopMod   map[int][]string // extra havoc names
+	LoopOwned map[int][]string // slice variables whose backing array stays private to the activation
 	Unlocked  bool             // callback must be invoked with no level>=1 lock held
 	Covers    []*Clause
 	Decreases []*Clause
@@ -200,7 +201,7 @@ func (db *SpecDB) LoadFile(path string) error {
 					}
 				}
 			}
-			cur = &FuncSpec{Name: name, Kind: kw, Params: params, LoopInv: map[int][]*Clause{}, LoopIter: map[int][]*Clause{}, LoopMod: map[int][]string{}, Pos: pos}
+			cur = &FuncSpec{Name: name, Kind: kw, Params: params, LoopInv: map[int][]*Clause{}, LoopIter: map[int][]*Clause{}, LoopMod: map[int][]string{}, LoopOwned: map[int][]string{}, Pos: pos}
 			switch kw {
 			case "func":
 				if db.Funcs[name] != nil {
@@ -281,6 +282,8 @@ func (db *SpecDB) LoadFile(path string) error {
 				}
 			case "modifies":
 				cur.LoopMod[k] = append(cur.LoopMod[k], strings.Fields(strings.ReplaceAll(r3, ",", " "))...)
+			case "owned":
+				cur.LoopOwned[k] = append(cur.LoopOwned[k], strings.Fields(strings.ReplaceAll(r3, ",", " "))...)
 			default:
 				return fail(fmt.Errorf("unknown loop clause %q", sub))
 			}
@@ -442,6 +445,14 @@ func specSort(s string) Sort {
 		return SIface
 	case "slice", "Slice":
 		return SSlice
+	case "strmap_int":
+		return ArrSort(SStr, SInt)
+	case "strmap_str":
+		return ArrSort(SStr, SStr)
+	case "strset":
+		return ArrSort(SStr, SBool)
+	case "strrel":
+		return ArrSort(SStr, ArrSort(SStr, SBool))
 	}
 	return Sort(s)
 }
@@ -484,7 +495,8 @@ type SEQuant struct {
 	Forall   bool
 	Vars     []QVar
 	Body     SE
-	Triggers []SE
+	Triggers []SE   // first group (conjunctive multi-pattern)
+	AltTriggers [][]SE // further alternative groups
 }
 type QVar struct {
 	Name string
@@ -517,7 +529,8 @@ func parseSE(text string) (SE, error) {
 			}
 			rest := strings.TrimSpace(text[i+2:])
 			var trig []SE
-			if strings.HasPrefix(rest, "{") {
+			var alts [][]SE
+			for strings.HasPrefix(rest, "{") {
 				depth, j := 0, 0
 				for j = 0; j < len(rest); j++ {
 					if rest[j] == '{' {
@@ -529,20 +542,26 @@ func parseSE(text string) (SE, error) {
 						}
 					}
 				}
+				var group []SE
 				for _, te := range splitTopLevel(rest[1:j], ',') {
 					t, err := parseSE(te)
 					if err != nil {
 						return nil, err
 					}
-					trig = append(trig, t)
+					group = append(group, t)
 				}
-				rest = rest[j+1:]
+				if trig == nil {
+					trig = group
+				} else {
+					alts = append(alts, group)
+				}
+				rest = strings.TrimSpace(rest[j+1:])
 			}
 			body, err := parseSE(rest)
 			if err != nil {
 				return nil, err
 			}
-			return &SEQuant{Forall: q == "forall", Vars: vars, Body: body, Triggers: trig}, nil
+			return &SEQuant{Forall: q == "forall", Vars: vars, Body: body, Triggers: trig, AltTriggers: alts}, nil
 		}
 	}
 	if i := topLevelIndex(text, "<==>"); i >= 0 {
